@@ -41,7 +41,7 @@ func (t *RTouch) Touch() int64 { return 1 }
 func raceRules(ver int) string {
 	s := ""
 	for i, n := range []string{"pa", "pb", "pc", "pd"} {
-		s += fmt.Sprintf("rule \"%s\" \"v%d\" salience %d begin\n  loc = Req.Id\n  obj = Mk()\n  conc {\n    x = loc + 1\n    obj.Touch()\n    y = loc + 2\n    obj.In.Touch()\n    z = Req.Id\n    obj.In.Touch()\n    w = 3\n  }\n  if Req.Flag {\n    return %d + x + y\n  }\nend\n", n, ver, 9-2*i, ver*1000)
+		s += fmt.Sprintf("rule \"%s\" \"v%d\" salience %d begin\n  loc = Req.Id\n  obj = Mk()\n  sm = Sum2(loc, Req.Id)\n  conc {\n    x = loc + 1\n    obj.Touch()\n    y = loc + 2\n    obj.In.Touch()\n    z = Req.Id\n    obj.In.Touch()\n    w = 3\n  }\n  if Req.Flag {\n    return %d + x + y\n  }\nend\n", n, ver, 9-2*i, ver*1000)
 	}
 	return s
 }
@@ -63,7 +63,8 @@ func init() {
 		var wg sync.WaitGroup
 		// (1) a pool: requests through the wrapper families, concurrent with management calls
 		mk := func() *RTouch { return &RTouch{In: &RTouch{}} }
-		gp, err := engine.NewGenginePool(2, 4, 1, raceRules(1), map[string]interface{}{"Mk": mk})
+		sum2 := func(a, b int64) int64 { return a + b } // a call WITH arguments: its argument list is evaluated by every execution of the rule
+		gp, err := engine.NewGenginePool(2, 4, 1, raceRules(1), map[string]interface{}{"Mk": mk, "Sum2": sum2})
 		if err != nil {
 			return nil, err
 		}
@@ -171,6 +172,7 @@ func init() {
 					dc := context.NewDataContext()
 					dc.Add("Req", &RReq{Id: int64(i)})
 					dc.Add("Mk", mk)
+					dc.Add("Sum2", sum2)
 					rb := builder.NewRuleBuilder(dc)
 					rb.Kc = master.Kc
 					g := engine.NewGengine()
